@@ -604,24 +604,27 @@ def classify_known(R, app, spec, req, obs, msg, klass):
         return kf.get("C07-specificity-overlap")
     e = app.expect(req)
     path = req["path"]
-    if klass in ("handler", "fallback:method") and obs["kind"] == "fallback":
-        # (i) matchit's committed suffix choice
-        dom_routes = [r["path"] for r in app.routes]
-        if obs["f"] == app.enclosing_fallback(app.bps[0]) or True:
-            if suffix_commit_witness(dom_routes, path):
-                return kf.get("C07-matchit-suffix-commit")
-        # (ii) the catch-all of a prefix-based fallback is more specific than the matching route
-        for b in app.bps:
-            if b["has_fallback"] and b["prefix"] and b["fallback"] == obs["f"]:
-                pt = parse_pattern(b["prefix"])
-                if pt is not None and toks_regex(pt, prefix_only=True).fullmatch(path) and not path_matches(pt, path):
-                    want = [r for r in app.routes if r["i"] == e.get("i")] if e["kind"] == "handler" else []
-                    under = all(_under(r["bp"], b) for r in want) if want else False
-                    if want and not under and all(cmp_spec(pt + [("star",)], r["toks"]) == 1 for r in want):
-                        return kf.get("C07-fallback-shadows-route")
-    if klass == "handler" and obs["kind"] == "handler":
-        if suffix_commit_witness([r["path"] for r in app.routes], path):
+    # the registered routes whose path pattern matches the request path (same domain)
+    dom = None
+    if app.domain_based:
+        fit = app.domain_of(req.get("host"))
+        dom = fit[0] if fit else None
+    matching = [r for r in app.routes if r["domain"] == dom and path_matches(r["toks"], path)]
+    if matching and klass in ("handler", "fallback:method", "allowed", "status"):
+        # (i) matchit's committed suffix choice: a route matches, yet a less specific route or a fallback
+        #     that was told "nothing matched" answered
+        if suffix_commit_witness([r["path"] for r in app.routes if r["domain"] == dom], path):
             return kf.get("C07-matchit-suffix-commit")
+    if matching and obs["kind"] == "fallback" and klass in ("handler", "fallback:method", "allowed"):
+        # (ii) the catch-all of a prefix-based fallback is more specific than every matching route
+        for b in app.bps:
+            if b["has_fallback"] and b["prefix"] and b["fallback"] == obs["f"] and b["domain"] == dom and not obs["allowed"]:
+                pt = parse_pattern(b["prefix"])
+                if pt is None or not toks_regex(pt, prefix_only=True).fullmatch(path) or path_matches(pt, path):
+                    continue
+                if all(not _under(r["bp"], b) for r in matching) and \
+                        all(cmp_spec(pt + [("star",)], r["toks"]) == 1 for r in matching):
+                    return kf.get("C07-fallback-shadows-route")
     if klass == "fallback:prefix" and e.get("exact_prefix"):
         # the request path IS the prefix: `<prefix>{*catch_all}` needs at least one more character
         return kf.get("C07-prefix-exact-path")
@@ -803,6 +806,19 @@ def run(R):
                     {"harness": have, "repo": want}, no_failing_input=True)
         return
     R.coverage["matchit_version"] = want
+    # source shape: the method list of `detect_method_conflicts` and the one the generated `match` uses
+    # must be the same nine methods the model calls `wellKnown` (the `Allow` theorem needs them equal)
+    m1 = re.search(r"static METHODS: \[&str; \d+\] = \[(.*?)\];", pxvlib.src_text("compiler/pavexc/src/compiler/analyses/user_components/router.rs"), re.S)
+    m2 = re.search(r"static WELL_KNOWN_METHODS:.*?HashSet::from_iter\(\[(.*?)\]\)", pxvlib.src_text("compiler/pavexc/src/compiler/codegen/router.rs"), re.S)
+    l1 = re.findall(r'"([A-Z]+)"', m1.group(1)) if m1 else None
+    l2 = re.findall(r'"([A-Z]+)"', m2.group(1)) if m2 else None
+    m3 = re.search(r"def wellKnown : List String := \[(.*?)\]", open(pxvlib.LEAN + "/Pxv/Model/Router.lean").read(), re.S)
+    l3 = re.findall(r'"([A-Z]+)"', m3.group(1)) if m3 else None
+    R.coverage["source_shape"] = {"METHODS": l1, "WELL_KNOWN_METHODS": l2, "model_wellKnown": l3}
+    if l1 is None or l2 is None or l1 != STD or set(l2) != set(STD) or l3 != STD:
+        R.violation("source shape: METHODS (router.rs) = %s, WELL_KNOWN_METHODS (codegen/router.rs) = %s, model wellKnown = %s (broken tie)" % (l1, l2, STD),
+                    {"METHODS": l1, "WELL_KNOWN_METHODS": l2, "model": STD}, no_failing_input=True)
+        return
     if R.replay:
         rp = json.load(open(R.replay))["replay"]
         if "rt" in rp:
@@ -855,6 +871,8 @@ def run(R):
             R.violation("implementation breaks the property: " + msg, payload)
             reported += 1
     R.coverage["e2e"]["oracle_classes"] = classes
+    if R.tier == "thorough" and not pxvlib.leanchecker(R, ["Pxv.Thm.C07"]):
+        R.violation("leanchecker rejects Pxv.Thm.C07", {"theorem_modules": ["Pxv.Thm.C07"]}, no_failing_input=True)
     if dis and not unknown:
         d0 = dis[0]
         R.violation("correspondence `router` (end to end): %d disagreement(s) between pavexc / the generated server and the model, first: %s" % (
